@@ -31,6 +31,10 @@ for rel, kinds in TARGETS.items():
             pass  # the file no longer uses any primitive of package sync: nothing to shim (its accesses are then seen by the race pass only)
         elif n != 1:
             print("overlay: %s no longer imports \"sync\" on its own line (%d matches)" % (rel, n), file=sys.stderr); sys.exit(2)
+    if "sync" not in kinds:
+        # a target that did not use package sync may start to: its locks must be scheduling points too, or a thread blocked on
+        # a real lock would never reach the scheduler again
+        s, _ = re.subn(r'^(\s*)"sync"\s*$', r'\1sync "verif/vsync"', s, flags=re.M)
     if "gotomic" in kinds:
         s, n = re.subn(r'^(\s*)"github.com/zond/gotomic"\s*$', r'\1gotomic "verif/vgotomic"', s, flags=re.M)
         if n != 1:
